@@ -6,6 +6,7 @@ import (
 	"os"
 	"path/filepath"
 	"strings"
+	"sync"
 	"testing"
 
 	"pgregory.net/rapid"
@@ -254,4 +255,70 @@ func TestC18BigAnnotations(t *testing.T) {
 			}
 		}
 	}
+}
+
+// TestC18Concurrent: the builtin schema is one object for the whole process
+// and the library calls the installed validator from several goroutines at
+// once (watcher-driven refresh next to ReadSpec / WriteSpec / Refresh of the
+// user). Library-valid Specs must pass it then as they do alone. Race build.
+func TestC18Concurrent(t *testing.T) {
+	rec := stats.For("C18", "concurrent")
+	base := t.TempDir()
+	defer cdi.SetSpecValidator(nil)
+	caseSeq := 0
+	rapid.Check(t, func(t *rapid.T) {
+		caseSeq++
+		n := rapid.IntRange(2, 6).Draw(t, "goroutines")
+		rounds := rapid.IntRange(5, 30).Draw(t, "rounds")
+		var all []*specs.Spec
+		for i := 0; i < n; i++ {
+			all = append(all, gen.Spec(t, fmt.Sprintf("g%d", i), gen.SpecOpts{Edit: gen.EditOpts{Hostile: rapid.Bool().Draw(t, fmt.Sprintf("hostile%d", i)), MaxPer: 2}, MaxDevices: 3}))
+		}
+		// each of them alone first (no validator, then with it): only Specs that pass alone take part
+		cdi.SetSpecValidator(nil)
+		var files []string
+		for i, s := range all {
+			dir := filepath.Join(base, fmt.Sprintf("c%d-g%d", caseSeq, i))
+			c, _ := cdi.NewCache(cdi.WithSpecDirs(dir), cdi.WithAutoRefresh(false))
+			if err := c.WriteSpec(s, "s.json"); err != nil {
+				t.Fatalf("VERIF-UNDECIDED generator precondition failed: %v", err)
+			}
+			files = append(files, filepath.Join(dir, "s.json"))
+			if err := schema.BuiltinSchema().Validate(s); err != nil {
+				t.Fatalf("C18 violated: library-valid Spec fails the builtin schema as an in-memory object: %v\nSpec: %s", err, clip(specImage(s), 2000))
+			}
+		}
+		cdi.SetSpecValidator(schema.BuiltinSchema())
+		msgs := make([]string, n)
+		var wg sync.WaitGroup
+		for i := 0; i < n; i++ {
+			wg.Add(1)
+			go func(i int) {
+				defer wg.Done()
+				for r := 0; r < rounds && msgs[i] == ""; r++ {
+					if err := schema.BuiltinSchema().Validate(all[i]); err != nil {
+						msgs[i] = fmt.Sprintf("Validate(spec) of a Spec that passes when validated alone: %v", err)
+						return
+					}
+					if _, err := cdi.ReadSpec(files[i], 0); err != nil {
+						msgs[i] = fmt.Sprintf("ReadSpec, with the builtin schema installed, of a file that loads when read alone: %v", err)
+						return
+					}
+					if err := schema.BuiltinSchema().ValidateFile(files[i]); err != nil {
+						msgs[i] = fmt.Sprintf("ValidateFile of a file that passes alone: %v", err)
+					}
+				}
+			}(i)
+		}
+		wg.Wait()
+		cdi.SetSpecValidator(nil)
+		for i, m := range msgs {
+			if m != "" {
+				t.Fatalf("C18 violated with %d goroutines validating at the same time (goroutine %d): %s\nSpec: %s", n, i, m, clip(specImage(all[i]), 2000))
+			}
+		}
+		_ = os.RemoveAll(base)
+		_ = os.MkdirAll(base, 0o755)
+		rec.Case(true, fmt.Sprintf("%d-%d-%s", n, rounds, specImage(all[0])), func() any { return map[string]any{"goroutines": n, "rounds": rounds} }, "concurrent-validation")
+	})
 }
